@@ -183,6 +183,10 @@ fn gen_spec(r: &mut Rng) -> BlobSpec {
         7 => {
             bid = -(BigInt::from(1) << 191u32);
         }
+        8 | 9 => {
+            // one-sided, very wide spread: bid many orders of magnitude below the ask
+            bid = &price >> (r.range(1, 120) as u32);
+        }
         _ => {}
     }
     if mid > max192 {
